@@ -375,6 +375,10 @@ fn gen_objects(master: u64, job: u64, tier: Tier) -> Vec<(Obj, String)> {
         let desc = wl.members.iter().map(|m| format!("{} in {}", m.compressor.describe(), m.wrapper.describe())).collect::<Vec<_>>().join("; ");
         v.push((Obj::File(wl.file), desc));
     }
+    if tier == Tier::Thorough && job % 400 == 399 {
+        let (c, _p, raw) = workload::gen_giant_block_stream(&mut rng);
+        v.push((Obj::Stream(raw), c.describe()));
+    }
     if tier == Tier::Thorough && job < workload::SAMPLE_FILES.len() as u64 {
         if let Some(f) = workload::sample_file(job as usize) {
             v.push((Obj::File(f), format!("samples/{}", workload::SAMPLE_FILES[job as usize])));
